@@ -39,6 +39,38 @@ func oracle(c mrun.Case, ctx *pbt.Ctx) error {
 	return nil
 }
 
+// closure profile with throw / catch / finally / defer: frames and blocks that are unwound by a throw while
+// closures over their variables are still reachable. The two shapes C14 records as known findings (exit from a
+// catch clause that has a finally, catch inside a handler) are outside this test's domain.
+func genUnwind(t *rapid.T) mrun.Case {
+	p := mini.ClosureP
+	p.Throw, p.Defer, p.ClosureBias = true, true, 3
+	p.NoExitFromCatchWithFinally, p.NoCatchInsideHandler = true, true
+	return mrun.Gen(t, p)
+}
+
+func oracleUnwind(c mrun.Case, ctx *pbt.Ctx) error {
+	if _, _, err := mrun.Compare(wDefault, c, ctx, sb.Cfg{}); err != nil {
+		return err
+	}
+	ev := c.Events
+	if ev["unwound_upvalue_access"] > 0 {
+		ctx.Label("unwound_upvalue_access")
+	}
+	if (ev["upvalue_write"] > 0 || ev["outer_write_after_capture"] > 0) && ev["closed_upvalue_access"] > 0 {
+		ctx.NonTrivial(c.Src)
+	}
+	return nil
+}
+
+func TestClosuresUnwind(t *testing.T) {
+	pbt.Rule("closures_unwind", "MiniElk closure profile plus throw / catch / finally / defer: closures (also escaping through assignments to outer closure variables and maker methods) over variables of frames and blocks that are left by a throw caught further out; same reference-interpreter oracle; non-trivial = a captured variable is written after capture and accessed after its defining scope exited; label unwound_upvalue_access = accessed after that scope was left by a throw")
+	wDefault = sb.New("debug")
+	defer wDefault.Close()
+	pbt.Run(t, pbt.Prop[mrun.Case]{Name: "closures_unwind", Quick: 500, Thorough: 15000, Gen: genUnwind, Oracle: oracleUnwind,
+		Minimize: func(c mrun.Case) mrun.Case { return mrun.Minimize(c, oracleUnwind) }, Sample: mrun.Sample})
+}
+
 func TestClosures(t *testing.T) {
 	pbt.Rule("closures", "MiniElk programs (closure profile): nested -> closures (depth <= 3) capturing locals, parameters, loop-body locals and for-in/fornum variables; counters mutated from the closure and from the enclosing scope; maker methods returning closures over their own locals/parameters (used after the defining call returned); sibling closures sharing a variable; closure calls in tail position; deep(n, f) calls a closure below 20..140 extra frames, and those programs also run with a 4000-byte initial value stack so that the stack is reallocated while upvalues are open. stdout and the uncaught error must equal the Go reference interpreter (environment model with shared mutable cells; loop-body locals and for-in/fornum variables are fresh per iteration). Non-trivial = a captured variable is written after capture (by the closure or the scope) and observed by the other party, after the defining frame returned, or across a deep call; distinct by source")
 	wDefault = sb.New("debug")
